@@ -1288,7 +1288,8 @@ def parse_txt(txt, xopts=None, **kwargs):
     uniquifier = xopts.uniquifier
     if uniquifier is None:
         log.debug(f"creating uniquifier for {txt}")
-        uniquifier = uniq.Uniquifier()
+        # one table for the page and for the tag bodies the expander parses again (ref, poem, gallery)
+        uniquifier = getattr(xopts.expander, "uniquifier", None) or uniq.Uniquifier()
         txt = uniquifier.replace_tags(txt)
         xopts.uniquifier = uniquifier
 
